@@ -3,15 +3,22 @@
 (* code -> spec for C05 / C06: events recorded from the real               *)
 (* pulsarbat.transforms.dedispersion are judged with the operators of      *)
 (* spec/Dedisp.tla.  All numbers arrive exactly (doubles as Rat records,   *)
-(* complex samples as 60-bit Fix pairs); TLC recomputes the law in exact   *)
-(* rational arithmetic and is the only judge.                              *)
+(* complex samples as 60-bit Fix pairs).  TLC is the only judge: the delay *)
+(* law is recomputed in exact rational arithmetic; chirp phases and the    *)
+(* delays that decide a ceiling / rounding are recomputed with the         *)
+(* bounded-precision operators of Dedisp 1b (error < 2^-60 cycle, 2^-44    *)
+(* sample, proven there and re-checked against the exact rationals on the  *)
+(* events the harness marks with xcheck), reduced modulo one cycle as      *)
+(* integers, and turned into cos / sin by the kernel's Taylor series.      *)
 (*                                                                         *)
 (* Tolerances (all derived from the arithmetic of the code, u = 2^-53):    *)
 (*  delay law   |out - law| <= 1e-14 * K|DM| * max(f^-2, fref^-2)          *)
 (*              (90 u of the larger term: the code rounds 2.41e-4, K, K*DM,*)
-(*              f^2, 1/f^2, a unit scale such as 1e-6, the difference, the *)
-(*              product and the conversion to s: <= 12 roundings, and the  *)
-(*              two terms cancel, so the error is relative to the larger)  *)
+(*              f^2, 1/f^2, unit scales such as 1e-6, the difference, the  *)
+(*              product, the conversion to s and the product with the      *)
+(*              rate: about 20 roundings in the worst case; the two terms  *)
+(*              cancel, so the error is relative to the larger one; the    *)
+(*              largest error seen on 9000 calls is 5 u)                   *)
 (*  chirp       |H - exp(-2 pi i phase)| <= 2e-6 + 7 * B per component,    *)
 (*              B = 2^-49 * rho * (|phase| + K|DM| |D| (1 + f/fref)) cycles*)
 (*              with D = 1/fref - 1/f, rho = (|fc| + |bin|) / f.  2e-6     *)
@@ -117,7 +124,8 @@ IncohFailed(e) ==
           \* and shows the input at T + d_i; without a start time only the
           \* relative alignment of the channels is observable
           \cup (IF e.hasT /\ e.outT
-                THEN LET a == ToInt(RRound(e.adv))
+                THEN LET ab == RRound(e.adv)
+                         a == IF FitsInt(ab) THEN ToInt(ab) ELSE -1000000000
                      IN Ok(\A i \in 1..n : \A k \in 1..op.outlen :
                               /\ e.src[i][k] = a + k - 1 + d[i]
                               /\ e.src[i][k] >= 0 /\ e.src[i][k] <= e.len - 1, "realign-decl")
